@@ -665,3 +665,142 @@ def op_lint_string(node: Any, sql: str, fname: str = "<string>", handle: str = "
         out["exception"] = _exc_row(e)
     out["mon"] = _mon_take()
     return out
+
+
+# ---- parser determinism (C06): buggify of fast paths -------------------------------
+
+_BUG: dict[str, Any] = {"installed": False, "cfg": {}, "rng": None, "stats": None}
+
+
+def _install_buggify(node: Any) -> None:
+    import random as _random
+    from collections import Counter as _Counter
+
+    if _BUG["installed"]:
+        return
+    _BUG["installed"] = True
+    _BUG["rng"] = _random.Random(node.rng.fork("buggify").randrange(1 << 30))
+    _BUG["stats"] = _Counter()
+    from sqlfluff.core.parser import match_algorithms as ma
+    from sqlfluff.core.parser.context import ParseContext
+
+    orig_check = ParseContext.check_parse_cache
+
+    def check_parse_cache(self: Any, loc_key: Any, matcher_key: str):
+        res = orig_check(self, loc_key, matcher_key)
+        st = _BUG["stats"]
+        r = _BUG["cfg"].get("cache_off", 0)
+        if res is not None:
+            if r and (r >= 1 or _BUG["rng"].random() < r):
+                st["cache_hit_skipped"] += 1
+                return None
+            st["cache_hit_served"] += 1
+        return res
+
+    ParseContext.check_parse_cache = check_parse_cache  # type: ignore
+
+    orig_prune = ma.prune_options
+
+    def prune_options(options: Any, segments: Any, parse_context: Any, start_idx: int = 0):
+        st = _BUG["stats"]
+        r = _BUG["cfg"].get("prune_off", 0)
+        if r and (r >= 1 or _BUG["rng"].random() < r):
+            kept = orig_prune(options, segments, parse_context=parse_context, start_idx=start_idx)
+            if len(kept) < len(options):
+                st["options_unpruned"] += len(options) - len(kept)
+                st["prune_calls_skipped"] += 1
+            return list(options)
+        kept = orig_prune(options, segments, parse_context=parse_context, start_idx=start_idx)
+        if len(kept) < len(options):
+            st["options_pruned"] += len(options) - len(kept)
+        return kept
+
+    ma.prune_options = prune_options  # type: ignore
+
+
+def _tree_sig(seg: Any, out: list, depth: int = 0) -> None:
+    pm = seg.pos_marker
+    if not seg.segments:
+        out.append(
+            "%s%s|%r|%s|%s"
+            % (
+                " " * depth,
+                seg.get_type(),
+                seg.raw,
+                (pm.source_slice.start, pm.source_slice.stop) if pm else None,
+                (pm.templated_slice.start, pm.templated_slice.stop) if pm else None,
+            )
+        )
+        return
+    out.append("%s%s:" % (" " * depth, seg.get_type()))
+    for s in seg.segments:
+        _tree_sig(s, out, depth + 1)
+
+
+def op_parse(node: Any, text: str, dialect: str, templater: str = "raw", buggify: Optional[dict] = None,
+             fname: str = "<string>", handle: Optional[str] = None, timeout_s: int = 60) -> dict:
+    import hashlib
+    import signal
+
+    from sqlfluff.core import FluffConfig, Linter
+
+    _install_buggify(node)
+    _BUG["cfg"] = dict(buggify or {})
+    _BUG["stats"].clear()
+    out: dict[str, Any] = {}
+
+    def _alarm(*a: Any) -> None:
+        raise TimeoutError("parse exceeded %ds" % timeout_s)
+
+    old = signal.signal(signal.SIGALRM, _alarm)
+    signal.alarm(timeout_s)
+    try:
+        linter = node.handles.get("plinter:%s:%s" % (dialect, templater)) if handle else None
+        if linter is None:
+            cfg = FluffConfig(overrides={"dialect": dialect, "templater": templater})
+            linter = Linter(config=cfg)
+            if handle:
+                node.handles["plinter:%s:%s" % (dialect, templater)] = linter
+        parsed = linter.parse_string(text, fname=fname)
+        lines: list = []
+        if parsed.tree is not None:
+            _tree_sig(parsed.tree, lines)
+        else:
+            lines.append("<no tree>")
+        viol = sorted([v.rule_code(), v.line_no, v.line_pos, v.desc()] for v in parsed.violations)
+        out["tree"] = "\n".join(lines)
+        out["violations"] = viol
+        out["digest"] = hashlib.sha256((out["tree"] + repr(viol)).encode("utf-8", "surrogatepass")).hexdigest()
+        out["variants"] = len(parsed.parsed_variants)
+    except SimCrash:
+        raise
+    except TimeoutError as e:
+        out["timeout"] = str(e)
+    except RecursionError as e:
+        out["exception"] = ["RecursionError", ""]
+    except Exception as e:
+        out["exception"] = _exc_row(e)
+    finally:
+        signal.alarm(0)
+        signal.signal(signal.SIGALRM, old)
+        _BUG["cfg"] = {}
+    out["stats"] = dict(_BUG["stats"])
+    return out
+
+
+def op_lint_text(node: Any, text: str, dialect: str, templater: str = "raw", fix: bool = False) -> dict:
+    """A lint/fix of a string in this process (history filler for C06)."""
+    from sqlfluff.core import FluffConfig, Linter
+
+    _install_buggify(node)
+    _BUG["cfg"] = {}
+    out: dict[str, Any] = {}
+    try:
+        linter = Linter(config=FluffConfig(overrides={"dialect": dialect, "templater": templater}))
+        lf = linter.lint_string(text, fix=fix)
+        out["n"] = len(lf.violations)
+    except SimCrash:
+        raise
+    except Exception as e:
+        out["exception"] = _exc_row(e)
+    return out
